@@ -8,7 +8,22 @@ observations, so legal sharing (quantity functions, unfilled templates) cannot
 trip it.
 """
 from .. import observe, spec as specmod
+from ..kernel import call, make_box
 from .pool import PoolScenario, check_writeset, hashes, snapshot_docs
+
+DF_CTORS = {
+    "Select": lambda df: df.hg_Select("b"),
+    "Fraction": lambda df: df.hg_Fraction("b"),
+    "Categorize": lambda df: df.hg_Categorize("s"),
+    "Bin": lambda df: df.hg_Bin(4, -2.0, 2.0, "x"),
+    "SparselyBin": lambda df: df.hg_SparselyBin(0.5, "x"),
+    "CentrallyBin": lambda df: df.hg_CentrallyBin([-1.0, 0.0, 1.5], "x"),
+    "IrregularlyBin": lambda df: df.hg_IrregularlyBin([-1.0, 0.5], "x"),
+    "Stack": lambda df: df.hg_Stack([-1.0, 0.5], "x"),
+    "Histogram": lambda df: df.hg_Histogram(4, -2.0, 2.0, "x"),
+    "SparselyHistogram": lambda df: df.hg_SparselyHistogram(0.5, "x"),
+    "SelectBin": lambda df: df.hg_Select("b", __import__("histogrammar").Bin(2, 0.0, 2.0, "y")),
+}
 
 PURE = ("add", "mul", "zero", "copy", "read", "scribble", "ship", "new")
 
@@ -16,12 +31,12 @@ PURE = ("add", "mul", "zero", "copy", "read", "scribble", "ship", "new")
 class C06(PoolScenario):
     prop = "C06"
     level = "exploration"
-    profiles = ["alias-hunt", "defaults"]
+    profiles = ["alias-hunt", "defaults", "alias-hunt", "accessors"]
     budgets = {"quick": 16000, "thorough": 300000}
     wall_caps = {"quick": 110, "thorough": 1500}
     ops = {"new": 1, "fill": 9, "fillnumpy": 3, "add": 5, "mul": 2.5, "zero": 1.5, "copy": 3, "read": 2, "scribble": 0.7,
-           "iadd": 2.5, "drop": 0.3}
-    wires = ["pickle"]
+           "iadd": 2.5, "drop": 0.3, "ship": 1.5}
+    wires = ["pickle", "json", "jsonstr", "file"]
     rule = ("one run = one history over a pool in which every result of a pure operation (a+b, a*f, f*a, zero, copy, "
             "toJson, ==, hash, repr, accessors) joins the pool and both results and sources keep being mutated (fill, "
             "fill.numpy, +=) in seeded interleavings; profile 'defaults' builds trees that rely on default arguments. "
@@ -31,11 +46,74 @@ class C06(PoolScenario):
                    "+= on operands that share state because of an earlier alias is reported once, at the first "
                    "observable change"]
     expected_faults = ["alias_mutation"]
-    expected_probes = ["mutation_after_derivation", "default_argument_tree"]
+    expected_probes = ["mutation_after_derivation", "default_argument_tree", "accessor_ctor", "default_quantity_bystander"]
 
     def gen_workload(self, rng, tier, profile):
         self.spec_opts = {"p_default": 0.8} if profile == "defaults" else {}
         return super().gen_workload(rng, tier, profile)
+
+    def generate(self, rng, tier, profile):
+        case = super().generate(rng, tier, profile)
+        sb = rng.fork("bystanders")
+        kinds = ["Sum", "Maximize", "Minimize", "Average", "Deviate", "Bin", "Bag", "Categorize", "SparselyBin", "Select", "Fraction", "Stack",
+                 "CentrallyBin", "Count"]
+        for i in range(sb.randint(0, 3)):
+            case["steps"].insert(sb.randint(0, max(0, len(case["steps"]) // 2)),
+                                 {"op": "bystander", "kind": sb.pick(kinds), "out": 2000 + i, "actor": "T9", "t": 0})
+        if profile == "accessors":
+            # DataFrame accessors (df.hg_Select(q), df.hg_Bin(...)) build aggregators that rely on default arguments
+            s = rng.fork("accessors")
+            n = len(case["records"])
+            nh = 1000
+            extra = []
+            for i in range(s.randint(3, 10)):
+                nh += 1
+                extra.append({"op": "df_ctor", "kind": s.pick(sorted(DF_CTORS)), "rows": [s.randrange(n) for _ in range(s.randint(0, 6))],
+                              "out": nh, "actor": s.pick(self.owners), "t": 1000 + i})
+            # interleave with the pool history
+            steps = case["steps"]
+            for e in extra:
+                steps.insert(s.randint(0, len(steps)), e)
+        return case
+
+    def apply_special(self, w, st, si):
+        if st["op"] == "bystander":
+            # aggregators built by separate constructor calls that rely on the *default quantity*: they are never touched
+            # again, so the write-set monitor sees any state they share with the rest of the pool (names included)
+            import histogrammar as hg
+
+            mk = {"Sum": lambda: hg.Sum(), "Maximize": lambda: hg.Maximize(), "Minimize": lambda: hg.Minimize(), "Average": lambda: hg.Average(),
+                  "Deviate": lambda: hg.Deviate(), "Bin": lambda: hg.Bin(2, 0.0, 1.0), "Bag": lambda: hg.Bag(), "Categorize": lambda: hg.Categorize(),
+                  "SparselyBin": lambda: hg.SparselyBin(1.0), "Select": lambda: hg.Select(), "Fraction": lambda: hg.Fraction(),
+                  "Stack": lambda: hg.Stack([0.0]), "CentrallyBin": lambda: hg.CentrallyBin([0.0, 1.0]), "Count": lambda: hg.Count()}[st["kind"]]
+            o = call(mk)
+            if o.ok:
+                w.put(st["out"], o.value, k=-1, via="ctor", mut=True)
+                w.bump("probe_default_quantity_bystander")
+            return o, set()
+        if st["op"] == "df_ctor":
+            if any(r >= len(w.records) for r in st["rows"]):
+                return None, set()
+            df = make_box(w.records, st["rows"], "frame")
+            o = call(DF_CTORS[st["kind"]], df)
+            if o.ok:
+                w.put(st["out"], o.value, k=-1, via="ctor", mut=True)
+                w.bump("probe_accessor_ctor")
+                # an aggregator built by a separate call holds exactly what its own frame gave it
+                import histogrammar as hg
+
+                n = float(len(st["rows"]))
+                if o.value.entries != n:
+                    raise self.violation(st["kind"], "ctor", "alias:entries",
+                                         "df.hg_%s(...) on a frame of %d rows returned an aggregator with entries %r (state left over "
+                                         "from another aggregator?)" % (st["kind"], len(st["rows"]), o.value.entries), si)
+                again = call(DF_CTORS[st["kind"]], df)
+                if again.ok and observe.observe(again.value) != observe.observe(o.value):
+                    d = observe.doc_diff(observe.observe(o.value), observe.observe(again.value)) or ([], st["kind"], "?")
+                    raise self.violation(d[1], "ctor", "alias:%s" % d[2],
+                                         "two identical df.hg_%s(...) calls on the same frame return different content at %s" % (st["kind"], d[0]), si)
+            return o, set()
+        return super().apply_special(w, st, si)
 
     def run(self, case, w, R):
         R["shape"] = "|".join(specmod.shape_key(s) for s in case["specs"])
